@@ -9,6 +9,10 @@ SPEC = {
         {"name": "TestNoEarlyShotDense", "quick": 24, "thorough": 240, "shards_quick": 2, "shards_thorough": 4, "timeout": 3000},
         # sleep-bound (7-10 s per case): 32 cases per process concurrently; thorough = 320 per process
         {"name": "TestDiscardedInPhout", "quick": 32, "thorough": 320, "shards_quick": 2, "shards_thorough": 4, "timeout": 3000},
+        # unlimited-tail profiles, 2-5 s per case: 24 cases per process concurrently; thorough = 240 per process
+        {"name": "TestProfileTime", "quick": 24, "thorough": 240, "shards_quick": 2, "shards_thorough": 4, "timeout": 3000},
+        # sleep-bound (5-13 s per case, thorough up to ~30 s): 12 cases per process concurrently; thorough = 40 per process
+        {"name": "TestLongWaits", "quick": 12, "thorough": 40, "shards_quick": 2, "shards_thorough": 4, "timeout": 3000},
     ],
     "rule": ("generated profiles (once/const/line, optionally two chained; 1-12 tokens per part over 1-4 s), 1-4 instances, shared or "
              "per-instance, discard_overflow on/off, cyclic response-time histories drawn from {0, 50ms, 0.5s, 1.7s, 1.9s, 2.1s, 2.4s, 3s, "
@@ -27,13 +31,33 @@ SPEC = {
              "2 s profile); 32 cases concurrently per process, all sharing netsample's sample pool. Oracle over the file: tokens not fired "
              "(tokens handed out minus Shoot calls) == lines having tag 'discarded' AND net code 777, no line has only one of the two, every "
              "fired request has exactly one line with its own tag, id, net code 0 and proto code, no other lines; discard off: no token "
-             "unfired. Non-trivial = some instance discarded, fired, and discarded again (or, discard off, fired at all)."),
+             "unfired. Non-trivial = some instance discarded, fired, and discarded again (or, discard off, fired at all). "
+             "In TestTiming, TestNoEarlyShotDense, TestProfileTime and TestLongWaits (one oracle) a shot is compared with TWO times: the token's own (what Next returned) and the time the load "
+             "PROFILE gives the request: sections follow each other from the start of the schedule (not before the first Next call was "
+             "entered), each limited section drained alone from the finish of the one before it (schedgen.Chain); the tokens one schedule "
+             "object hands out are ranked by time, rank k is request k of the profile; tokens of an unlimited section (and of limited "
+             "sections between two unlimited ones) only have the start of the first unlimited section as a lower bound, limited sections "
+             "after the last unlimited one are counted from the end. "
+             "TestProfileTime: profiles whose size is unknown in advance: 1-3 limited sections (const / line of 1-8 tokens over 0.4-1.5 s, "
+             "once 1-4, pause 0.4-1.5 s), then `unlimited` for 80-300 ms, one case in three with another limited section behind it; 1-3 "
+             "instances, shared or per-instance, discard on/off, responses of 2-60 ms (one case in five also a 700 ms one), so that instances "
+             "are back and ask the schedule whether it is finished (Left) long before a limited section ends; 24 cases concurrently per "
+             "process; non-trivial = some limited section followed by an unlimited one ends later than the last request before that end "
+             "plus the slowest response (an instance is idle there), the unlimited section fired, and shots were compared with profile times. "
+             "TestLongWaits: one instance has to wait 4-11 s (thorough: up to 26 s) in one go for a request: two small steps separated by a "
+             "pause, a steady rate of one request per 4-11 s (2-3 requests), or a ramp from zero whose second request is that far away; "
+             "1-3 instances (idle instances of a shared schedule take tokens several intervals ahead), responses of 0-200 ms, discard "
+             "on/off; all cases of a process concurrently; non-trivial = some token was handed out >= 3 s ahead of its time."),
     "floors": {"TestTiming/late_1_2s": 0.1, "TestTiming/late_2_3s": 0.1, "TestTiming/late_ge_3s": 0.07,
                "TestTiming/discard_off": 0.066, "TestTiming/instances_gt_1": 0.3, "TestTiming/discards_seen": 0.2, "TestTiming/token_waited_for_right_after_a_discard": 0.08,
                "TestNoEarlyShotDense/shots_within_1ms_after_their_time": 0.3,
                "TestDiscardedInPhout/phout_discard_then_shot_then_discard_on_one_instance": 0.33,
                "TestDiscardedInPhout/phout_discarded_lines_seen": 0.34, "TestDiscardedInPhout/phout_discard_off": 0.05,
-               "TestDiscardedInPhout/phout_instances_gt_1": 0.3, "TestDiscardedInPhout/phout_ids_on": 0.25},
+               "TestDiscardedInPhout/phout_instances_gt_1": 0.3, "TestDiscardedInPhout/phout_ids_on": 0.25,
+               "TestProfileTime/instance_idle_at_end_of_limited_section_before_unlimited": 0.35, "TestProfileTime/unlimited_section_fired": 0.4,
+               "TestProfileTime/limited_section_after_unlimited": 0.1, "TestProfileTime/shots_compared_with_profile_time": 0.6,
+               "TestTiming/shots_compared_with_profile_time": 0.6,
+               "TestLongWaits/single_wait_ge_5s": 0.3, "TestLongWaits/single_wait_ge_8s": 0.08, "TestLongWaits/instances_gt_1": 0.2},
     "manifest": {
         "technique": "property-based testing (rapid generators, batch-parallel, real time) with an interval oracle over measured instants",
         "text": ("Real-time runs of the engine against slow fake guns. No shot may enter before its token's time; with discard_overflow on a "
@@ -41,10 +65,18 @@ SPEC = {
                  "anything in between is accepted; with it off nothing is discarded and every token is fired; run length stays within "
                  "profile + 2 s + slowest response (+3 s slack) when discard is on. A third test reads the discarded samples where the user does: "
                  "in the file written by the real phout aggregator, with guns that take their samples from netsample's pool: one "
-                 "'discarded' / 777 line per token that was not fired, one faithful line per fired request."),
+                 "'discarded' / 777 line per token that was not fired, one faithful line per fired request. 'Scheduled time' is judged "
+                 "twice: against the token the schedule handed out and against the timetable computed from the profile itself (sections "
+                 "chained from the start of the schedule), including profiles with an unlimited section, and for single waits of up to "
+                 "11 s (thorough 26 s)."),
         "note": ("Cannot test the boundary at exactly 2.000 s: lateness between the two measured instants is accepted either way. Joins "
                  "token to shot by goroutine id parsed from runtime.Stack. Machine load delays A and B together and can only move a "
-                 "sample into the accepted band."),
+                 "sample into the accepted band. With discard off the run-length bound (profile + tokens x slowest response + 5 s) is only "
+                 "a guard against a run that never ends; when it expires while this process's own 2 ms sleeps were measured > 5 ms late "
+                 "(busy machine: the fake guns' responses are sleeps too) the run gets five times the bound more (class "
+                 "discard_off_run_bound_extended_under_machine_load). The profile-time comparison takes the start of the schedule as the "
+                 "instant the first Next call was entered (the real start is a few microseconds later), so it cannot see a request that is "
+                 "early by less than that; the token-time comparison is exact."),
     },
     "assumptions": ["goroutine id join: an instance draws a token and fires/discards it on the same goroutine"],
 }
